@@ -45,6 +45,7 @@ type Request struct {
 	URL *urlpkg.URL
 
 	isMultiPart              bool
+	clientFormDataMerged     bool
 	disableAutoReadResponse  bool
 	forceChunkedEncoding     bool
 	isSaveResponse           bool
